@@ -122,13 +122,15 @@ def _changed_since_baseline(baseline, rep):
     return bool(want) and bool(rep.get("function_sha")) and want != rep["function_sha"]
 
 
-def _primary_property(rep):
-    """the property a contract was written for: the first it lists (its clauses may be stronger than what the other
-    properties that use the function need, so only this one is alarmed by a lost obligation)"""
+def _alarmed_properties(rep):
+    """the properties a lost obligation of this contract is reported for: those the contract lists (their proofs rest on
+    it), unless the contract narrows that down (`escalate`) because some of its clauses say more than one of them needs"""
     from pyvc.spec import REGISTRY
 
     con = REGISTRY.get(rep.get("function"))
-    return con.properties[0] if con is not None and con.properties else None
+    if con is None:
+        return ()
+    return tuple(getattr(con, "escalate", None) or con.properties)
 
 
 def load_known():
@@ -274,7 +276,7 @@ def main(argv=None):
         elif st in ("UNDECIDED", "OUT-OF-SUBSET", "SPEC-INAPPLICABLE"):
             undecided.append(f"{st} {name}: {rep.get('reason', '') or [o['name'] for o in rep['obligations'] if o['status'] != 'discharged'][:4]}")
             lost = [o for o in rep["obligations"] if o["status"] != "discharged"]
-            if st == "UNDECIDED" and lost and _changed_since_baseline(baseline, rep) and _primary_property(rep) == pid:
+            if st == "UNDECIDED" and lost and _changed_since_baseline(baseline, rep) and pid in _alarmed_properties(rep):
                 # The text of this function differs from the tree its contract was discharged against, the contract
                 # still applies to its shape, and obligations that were discharged there are not any more: reported
                 # as the violated obligations (the solver gives no input; the bounded stage may).
